@@ -58,8 +58,14 @@ def lis_files(rng, n):
             continue            # stated exclusion: shares the BIT signature
         if tif == 'be' and first_len + 12 in (0x100, 0x10000):
             continue
+        pads = 0
+        if tif != 'none' and rng.random() < 0.4:
+            # records padded with nulls up to a minimum record size: the TIF marker's 'next' points past the padding
+            for p_ in layout[:rng.choice([1, 1, 3, len(layout)])]:
+                p_['pad'] = rng.choice([1, 2, 4, 6, 66, 130])
+            pads = layout[0]['pad']
         data, _ = GL.render(lrs, layout, tif)
-        out.append(({'none': 'LIS', 'le': 'LISt', 'be': 'LIStr'}[tif], data, dict(fmt='LIS', tif=tif, first=first, maxpay=maxpay, trailer=trailer)))
+        out.append(({'none': 'LIS', 'le': 'LISt', 'be': 'LIStr'}[tif], data, dict(fmt='LIS', tif=tif, first=first, maxpay=maxpay, trailer=trailer, first_pad=pads)))
     return out
 
 
